@@ -99,6 +99,62 @@ def timer_reuse_worker(a):
             "hash": vcommon.h(["timer-reuse", seed, how, a["gap"]]), "config": cfg.to_json(), "events": None}
 
 
+def timeout_raised_worker(a):
+    """Real timers across a reload that RAISES the request timeout: a client served under `timeout 1` (its timer fires), then a
+    SIGUSR1 that says `timeout 3` (or 4), then a client that waits on an unanswered query.  It may be accepted only when the
+    timeout in force when it was announced has expired: an acceptance read back earlier than that after its announcement was
+    written is premature whatever the machine's load."""
+    import time
+    b, seed = a["build"], a["seed"]
+    rng = random.Random(seed)
+    new_to = a["new_timeout"]
+    cfg = proto.Config([("login.svc", "login")], timeout=1)
+    s = proto.Session(b, cfg, leaks=True)
+    viol = []
+    stats = {"timeout_raised_runs": 1, "timeout_raised_accepts_seen": 0, "timeout_raised_first_client_served": 0}
+    seen_at = None
+
+    def client(cid, acct):
+        s.do({"t": "announce", "id": cid, "ip": "192.0.2.%d" % (cid % 200 + 1), "port": 1000 + cid})
+        for ev in ({"t": "password", "id": cid, "text": "+x %s pw" % acct}, {"t": "host", "id": cid, "name": "h"}, {"t": "ident", "id": cid, "name": "i"},
+                   {"t": "nick", "id": cid, "name": "n"}, {"t": "userinfo", "id": cid, "user": "u", "real": "R"}):
+            s.do(ev)
+    try:
+        for k in range(a.get("before", 1)):
+            client(5 + k, "alice")
+        t0 = time.monotonic()
+        while time.monotonic() < t0 + 2.5 and (5 in s.open) and not s.dead:
+            time.sleep(0.1)
+            s.do({"t": "noise", "line": "-1 M irc.example.net 1"})
+        stats["timeout_raised_first_client_served"] = 0 if 5 in s.open else 1
+        s.do({"t": "reload", "services": [["login.svc", "login"]], "timeout": new_to})
+        cid = rng.choice([9, 5, 70000])
+        tb = time.monotonic()
+        client(cid, "bob")
+        while time.monotonic() < tb + new_to + 0.9 and not s.dead:
+            time.sleep(0.1)
+            out = s.do({"t": "noise", "line": "-1 M irc.example.net 1"})
+            now = time.monotonic()
+            for ln in out or []:
+                c = proto.classify(ln)
+                if c and c["kind"] == "client" and c["id"] == cid and c["cmd"] in "DR" and seen_at is None:
+                    seen_at = now - tb
+                    stats["timeout_raised_accepts_seen"] += 1
+            if seen_at is not None:
+                break
+        s.finish()
+    except Exception:
+        s.kill()
+        raise
+    if seen_at is not None and seen_at < new_to - TIMER_SLACK:
+        viol.append(("C02", "accept-before-timeout", "accept-before-timeout:raised-by-reload",
+                     "the request timeout was 1 s while an earlier client was served and was raised to %d s by a reload; a client announced after the reload, with a query unanswered, was accepted "
+                     "%.2f s after its announcement\n%s" % (new_to, seen_at, prun.render_trace(s.trace, 30)), {"seed": seed, "new_timeout": new_to, "timeout_raised": True, "before": a.get("before", 1)}))
+    clean = s.res.clean() if s.res else False
+    return {"viol": viol, "stats": dict(stats, daemon_unclean=0 if clean else 1), "crash": [], "nontrivial": seen_at is not None, "sample": None, "nsteps": len(s.trace.steps),
+            "hash": vcommon.h(["timeout-raised", seed, new_to]), "config": cfg.to_json(), "events": None}
+
+
 def run(chk, tier, scale=1.0):
     b = prun.build_daemon("c02-" + tier)
     cases = order_cases(tier, chk.seed, scale, "c02")
@@ -116,7 +172,9 @@ def run(chk, tier, scale=1.0):
     # real timers and id re-use (wall clock is used one-sidedly: an acceptance seen too EARLY is a violation, lateness never is)
     tjobs = [dict(build=b, seed=chk.seed * 50 + k, how=["disconnect", "registered", "refused", "replaced"][k % 4], gap=[0.8, 1.2, 1.5][k % 3])
              for k in range(8 if tier == "quick" else 48)]
-    prun.fold(chk, "C02", vcommon.pmap(timer_reuse_worker, tjobs))
+    rjobs = [dict(build=b, seed=chk.seed * 60 + k, new_timeout=[3, 4][k % 2], before=[1, 2][k % 2]) for k in range(4 if tier == "quick" else 24)]
+    prun.fold(chk, "C02", vcommon.pmap(timer_reuse_worker, tjobs) + vcommon.pmap(timeout_raised_worker, rjobs))
+    chk.require("timeout_raised_accepts_seen", 2)
     # service tables around the width of the per-client masks (the awaiting mask must not lose or alias a service)
     import build as buildmod
     from checks import c06
@@ -143,6 +201,18 @@ def run(chk, tier, scale=1.0):
 
 
 def replay(chk, rep):
+    if rep["witness"].get("timeout_raised"):
+        w = rep["witness"]
+        r = timeout_raised_worker(dict(build=prun.build_daemon("c02-replay"), seed=w["seed"], new_timeout=w["new_timeout"], before=w.get("before", 1)))
+        for v in r["viol"]:
+            print(v[3])
+        return 1 if r["viol"] else 0
+    if rep["witness"].get("timer_reuse"):
+        w = rep["witness"]
+        r = timer_reuse_worker(dict(build=prun.build_daemon("c02-replay"), seed=w["seed"], how=w["how"], gap=w["gap"]))
+        for v in r["viol"]:
+            print(v[3])
+        return 1 if r["viol"] else 0
     if rep["witness"].get("site"):
         import sitemodel
         return sitemodel.replay_site(chk, rep["witness"], "C02", ('C02',))
